@@ -826,6 +826,14 @@ pub fn run_op(sh: &Arc<Shared>, o: &OpDesc) -> Value {
             }
             json!("ok")
         }
+        "await_end" => {
+            // harness only: until the reducer loop of this store has ended (at most 9 s)
+            let t0 = Instant::now();
+            while !sched().loop_ended(&env.prefix) && t0.elapsed() < std::time::Duration::from_secs(9) {
+                std::thread::sleep(std::time::Duration::from_micros(200));
+            }
+            json!("ok")
+        }
         "task" => {
             Dispatcher::dispatch_task(store, make_task(env));
             json!("ok")
